@@ -72,27 +72,51 @@ def independence(run, repo, pkg):
         run.check(verdict is True, 'R11.indep', gi, rets[0] if len(rets) == 1 else 'independent_from',
                   'two gates are independent iff their qubit sets are disjoint (differs for qubits %s and %s)' % (verdict if verdict is not True else ('', '')))
     li = layer.methods['independent_from']
-    rets = [st.value for st, _ in walk(li.node) if isinstance(st, ast.Return)]
     o2 = li.posparams[1]
-    ok = None
-    if len(rets) == 1 and isinstance(rets[0], ast.Call) and norm(rets[0].func) == 'any' and rets[0].args \
-            and isinstance(rets[0].args[0], (ast.GeneratorExp, ast.ListComp)) and 'independent_from' in norm(rets[0].args[0].elt):
-        run.violation('R11.indep', li, rets[0], 'a layer is independent from a gate only if ALL of its gates are; with any() a gate that overlaps one gate of '
-                      'the layer is still packed into it or slides past it')
-        ok = 'reported'
-    elif len(rets) == 1 and isinstance(rets[0], ast.Call) and norm(rets[0].func) == 'all' and rets[0].args \
-            and isinstance(rets[0].args[0], (ast.GeneratorExp, ast.ListComp)):
-        ge = rets[0].args[0]
-        gv = ge.generators[0]
-        ok = norm(gv.iter) == 'self.gates' and not gv.ifs and isinstance(ge.elt, ast.Call) \
-            and isinstance(ge.elt.func, ast.Attribute) and ge.elt.func.attr == 'independent_from' \
-            and norm(ge.elt.func.value) == norm(gv.target) and [norm(a) for a in ge.elt.args] == [o2]
-    if ok is None:
-        run.undecided('R11.indep', li, 'independent_from', 'not of the form all(gate.independent_from(x) for gate in self.gates)')
-    elif ok == 'reported':
+    # a layer is independent from a gate iff every one of its gates is: the method is executed on layers of 0..3 stub gates with
+    # every pattern of answers
+    import itertools
+    from .. import mini
+    from ..exprnf import Undecidable
+
+    class _G:
+        def __init__(self, ans):
+            self.ans = ans
+    verdict = True
+    try:
+        for n_g in range(4):
+            for pat in itertools.product((True, False), repeat=n_g):
+                gates = tuple(_G(a) for a in pat)
+
+                def attr(n, env, rec, gates=gates):
+                    if norm(n) == 'self.gates':
+                        return gates
+                    raise Undecidable('attribute ' + norm(n))
+
+                def call(n, env, rec):
+                    f_ = n.func
+                    if isinstance(f_, ast.Attribute) and f_.attr == 'independent_from' and len(n.args) == 1:
+                        b_ = rec(f_.value)
+                        if isinstance(b_, _G) and norm(n.args[0]) == o2:
+                            return b_.ans
+                    if isinstance(f_, ast.Name) and f_.id in ('all', 'any', 'bool', 'len', 'list', 'tuple', 'sum') and len(n.args) == 1:
+                        return {'all': all, 'any': any, 'bool': bool, 'len': len, 'list': tuple, 'tuple': tuple, 'sum': sum}[f_.id](rec(n.args[0]))
+                    raise Undecidable('call ' + norm(f_))
+                res = []
+                mini.execute(li.node, {o2: 'GATE'}, call=call, attr=attr, result=res)
+                if len(res) != 1:
+                    raise Undecidable('no result')
+                if bool(res[0]) != all(pat):
+                    verdict = pat
+                    raise StopIteration
+    except StopIteration:
         pass
-    else:
-        run.check(ok, 'R11.indep', li, rets[0], 'a layer is independent from a gate iff all of its gates are')
+    except (Undecidable, TypeError) as e:
+        verdict = None
+        run.undecided('R11.indep', li, 'independent_from', 'layer predicate not executable on stub gates: %s' % e)
+    if verdict is not None:
+        run.check(verdict is True, 'R11.indep', li, 'layer.independent_from', 'a layer is independent from a gate iff ALL of its gates are: with the gates answering %s '
+                  'the layer answers otherwise (a gate that overlaps one gate of the layer would be packed into it or slide past it)' % (repr(verdict) if verdict is not True else '',))
 
 
 def check(run):
